@@ -3,6 +3,7 @@ import Driver.C13
 import AslModel.Model.SymLoc
 import AslModel.Model.SymLocObs
 import AslModel.Spec.LocScope
+import AslModel.Spec.LocTmp
 /-! Driver mode `c13l`: one program with macro / loop constructs per request line (macro-local label spaces).
 
 request : `<cs01> <nophex> <obs|-> tok*`
@@ -65,6 +66,22 @@ def rebuild (s : LocScope.Stmt Sym.Op) : Sym.Op :=
 
 def isTmpName (n : Name) : Bool := SymLoc.isTmpName n
 
+/-- a temporary-symbol form the label-space spec does not cover inside a construct: `$$name`, `-`, `+`, `/` (a composed name
+`.name` without `[section]` is covered: `Spec/LocTmp.lean`) -/
+def isTmpOther (n : Name) : Bool :=
+  isTmpName n && !(LocTmp.isDot n && n.getLast? != some 93)
+
+/-- the symbols a statement defines, as the manual's bookkeeping of "most recently defined" sees them (the same reading as
+`toFlat`: `name[section]` defines `name`) -/
+def defsOf (cs : Bool) : Sym.Op → List (Name × Scope.DefBy)
+  | .define n _ mc => [((parseRef cs n).1, defBy mc)]
+  | .label n => [((parseRef cs n).1, .label)]
+  | .labelOnly n => [((parseRef cs n).1, .label)]
+  | .labelWord n _ => [((parseRef cs n).1, .label)]
+  | .labelPc n => [((parseRef cs n).1, .labelStmt)]
+  | .enum_ _ items => items.map (fun it => ((parseRef cs it.1).1, Scope.DefBy.enumMember))
+  | _ => []
+
 /-- statements inside a construct that the spec of the local label spaces does not speak about: temporary symbols,
 sections, declarations, PUSHV/POPV, ENUM -/
 partial def outsideSpec (inside : Bool) : List T → Bool
@@ -72,13 +89,32 @@ partial def outsideSpec (inside : Bool) : List T → Bool
   | .con _ _ _ b :: r => outsideSpec true b || outsideSpec inside r
   | .op o :: r =>
     (inside && (match o with
-      | .label n => isTmpName n
-      | .labelOnly n => isTmpName n
-      | .labelWord n x => isTmpName n || isTmpName x
-      | .use x => isTmpName x
+      | .label n => isTmpOther n
+      | .labelOnly n => isTmpOther n
+      | .labelWord n x => isTmpOther n || isTmpOther x
+      | .use x => isTmpOther x
       | .define n _ _ => isTmpName n
       | .labelPc n => isTmpName n
       | _ => true)) || outsideSpec inside r
+
+/-- names of a statement (labels, operands, members) -/
+def opNames : Sym.Op → List Name
+  | .define n _ _ => [n]
+  | .label n => [n]
+  | .labelOnly n => [n]
+  | .labelWord n r => [n, r]
+  | .labelPc n => [n]
+  | .use r => [r]
+  | .enum_ _ items => items.map (·.1)
+  | _ => []
+
+/-- after `LocTmp.compose` the flat renaming of `toFlat` must not be asked about names that depend on the range bookkeeping
+any more (`toFlat` takes a written-out composed name for an ordinary definition): `$$name` anywhere, `.name[section]` -/
+partial def mixedTmp : List T → Bool
+  | [] => false
+  | .con _ _ _ b :: r => mixedTmp b || mixedTmp r
+  | .op o :: r => (opNames o).any (fun n => (match n with | 36 :: 36 :: _ => true | _ => false) || (LocTmp.isDot n && n.getLast? == some 93))
+      || mixedTmp r
 
 def isWordOp : Sym.Op → Bool
   | .use _ => true
@@ -101,11 +137,15 @@ def handle (line : String) : String :=
       let mout := fin.g.out.reverse
       let merrs := fin.g.errs.reverse.map (·.2)
       let mstat := if Sym.hasError fin.g then "2" else if fin.g.repass then "97" else "0"
-      let (ex, dyn) := LocScope.expand (norm cs) (toSpec ts)
+      -- composed names (`.name`) are replaced by what they denote before the label spaces are applied (`Spec/LocTmp.lean`)
+      let sp0 := toSpec ts
+      let sp := if LocTmp.itemsHasDot sp0 then LocTmp.compose (defsOf cs) sp0 else sp0
+      let (ex, dyn) := LocScope.expand (norm cs) sp
       let ops := ex.map (fun p => rebuild p.1)
       let fwdFlags := (ex.filter (fun p => isWordOp p.1.payload)).map (·.2)
       let verdict : Scope.Verdict :=
         if outsideSpec false ts then .unspecified "statement inside a construct the label-space spec does not cover"
+        else if LocTmp.itemsHasDot sp0 && mixedTmp ts then .unspecified "composed names together with $$ names or .name[section]"
         else if dyn then .unspecified "reference in a macro to a label of the calling body"
         else match toTree (toFlat cs ops {} 0 0) with
           | some t => Scope.judge t
@@ -121,8 +161,10 @@ def handle (line : String) : String :=
       let nfwd := (fwdFlags.filter id).length
       -- both sides of `C13_loc_refines` on this program: first pass (empty local table) and second pass (settled table)
       let p := toP ts
-      let hyp := p.ordinary false && p.noHash && !dyn
-      let specSide := ex.map (fun x => (x.1.label, x.1.ref))
+      let hyp := p.ordinary false && p.noHash && !(LocScope.expand (norm cs) sp0).2
+      -- the theorems speak about `LocScope.expand` of the program as written
+      let ex0 := (LocScope.expand (norm cs) sp0).1
+      let specSide := ex0.map (fun x => (x.1.label, x.1.ref))
       let s1 := SymLoc.initPassL st0 0
       let s2 := SymLoc.initPassL (SymLoc.exitPassL (SymLoc.execItems p.toModel s1)) 0
       let side (s : SymLoc.LSt) := ((SymLoc.traceItems p.toModel s).map (SymLoc.render (SymLoc.openedItems p.toModel s))).map
@@ -130,7 +172,7 @@ def handle (line : String) : String :=
       let ref1 := side s1 == specSide
       let ref2 := side s2 == specSide
       let set2 := SymLoc.settled p.toModel s2
-      let allfwd := ex.all (fun x => !x.2)
+      let allfwd := ex0.all (fun x => !x.2)
       let base := s!"mout={hexNats mout} merrs={showNums merrs} mpasses={fin.g.passNo} mstat={mstat} verdict={vs} vwhy={vwhy} swords={swords.length} shadow={shadow.length} locfwd={nfwd} spaces={fin.cnt} hyp={if hyp then 1 else 0} settled2={if set2 then 1 else 0} ref1={if ref1 then 1 else 0} ref2={if ref2 then 1 else 0} nofwd={if allfwd then 1 else 0}"
       if obs = "-" then base else
       match obs.splitOn ";" with
